@@ -43,6 +43,9 @@ const (
 )
 
 func TestC17_TimeInterval(t *testing.T) {
+	if !h.Thorough() {
+		t.Skip("sleeps 6.3 s per mechanism: thorough tier only (VERIF_TIER=thorough)")
+	}
 	h.Sweep(t, h.P{Name: "gm-time-interval"}, func(emit func(timeCase)) {
 		for _, m := range mechs {
 			emit(timeCase{m.Name, gen.Mix(h.Seed, uint64(len(m.Name)), 0x71)})
@@ -54,7 +57,7 @@ func checkTime(c timeCase, r *h.Rec) error {
 	m := mechByName(c.Mech)
 	r.Label("time/" + c.Mech)
 	r.NT()
-	ent := gen.Fill(gen.Mix(c.Seed, 1), 2*m.minEntropyInstantiate(true))
+	ent := gen.Fill(gen.Mix(c.Seed, 1), 2*m.safeEntropy(true))
 	nonce := gen.Fill(gen.Mix(c.Seed, 2), 2*m.minNonce(true)+1)
 	pers := gen.Fill(gen.Mix(c.Seed, 3), 9)
 	addl := gen.Fill(gen.Mix(c.Seed, 4), 20)
